@@ -31,12 +31,17 @@ type c04Layer struct {
 type c04Overlay struct {
 	Layers []c04Layer `json:"layers"`
 	Opt    string     `json:"opt"`
+	Dag    bool       `json:"dag,omitempty"` // structurally equal subtrees are ONE node object, inside and between the layers
 }
 
 type c04Source struct {
 	Via string `json:"via"` // yaml | json (override file, Load) | map | dom (Add)
 	Doc W      `json:"doc"`
 }
+
+// c04Vias: how an override reaches the helper; one in eight is a file that breaks off in the middle (Load must fail
+// and leave the helper as it was: the sources after it merge over what was accumulated before it).
+var c04Vias = []string{"yaml", "yaml", "yaml", "json", "json", "map", "dom", "broken-yaml", "broken-json", "yaml", "json", "map", "dom", "yaml", "json", "dom"}
 
 type c04Config struct {
 	Defaults W           `json:"defaults"`
@@ -99,7 +104,7 @@ func c04Run(c *Ctx) {
 			ls[j] = c04Layer{Name: fmt.Sprintf("L%d", j), Doc: prev}
 			prev = second(prev)
 		}
-		c.Do("overlay", c04Overlay{Layers: ls, Opt: opt()})
+		c.Do("overlay", c04Overlay{Layers: ls, Opt: opt(), Dag: r.Intn(4) == 0})
 	}
 	for i := 0; i < c.N(500); i++ {
 		c.Tick()
@@ -109,7 +114,7 @@ func c04Run(c *Ctx) {
 		prev := def
 		for j := range srcs {
 			prev = second(prev)
-			srcs[j] = c04Source{Via: pick(r, []string{"yaml", "yaml", "json", "json", "map", "dom"}), Doc: prev}
+			srcs[j] = c04Source{Via: pick(r, c04Vias), Doc: prev}
 		}
 		c.Do("config", c04Config{Defaults: def, Sources: srcs})
 	}
@@ -428,6 +433,9 @@ func c04Eval(c *Ctx, kind string, raw []byte) {
 		app := p.Opt == "append"
 		c.Dist("opt:" + p.Opt)
 		c.Dist(fmt.Sprintf("overlay:layers=%d", len(p.Layers)))
+		if p.Dag {
+			c.Dist("overlay:shared-node-objects")
+		}
 		for i := 1; i < len(p.Layers); i++ {
 			if c04Stats(c, p.Layers[i-1].Doc, p.Layers[i].Doc, true) {
 				c.Nontrivial()
@@ -437,8 +445,13 @@ func c04Eval(c *Ctx, kind string, raw []byte) {
 		var before, after []W
 		out, txt := guard(func() {
 			ov := dom.NewOverlayDocument()
+			memo := map[string]dom.Node{}
 			for _, l := range p.Layers {
-				ov.Add(l.Name, wireContainer(l.Doc))
+				if p.Dag {
+					ov.Add(l.Name, heapBuildDag(l.Doc, memo).(dom.Container))
+				} else {
+					ov.Add(l.Name, wireContainer(l.Doc))
+				}
 			}
 			snap := func() []W {
 				var s []W
@@ -494,9 +507,40 @@ func c04Eval(c *Ctx, kind string, raw []byte) {
 		// write the override files and decode them with the control decoders
 		docs := []W{p.Defaults}
 		files := make([]string, len(p.Sources))
+		mustFail := make([]bool, len(p.Sources))
 		for i, s := range p.Sources {
 			c.Dist("config:via=" + s.Via)
 			plain := wirePlain(s.Doc)
+			switch s.Via {
+			case "broken-yaml", "broken-json":
+				// the rendering of the document, cut in the middle, then junk; what the control decoder makes of it decides
+				// what is expected (an error: Load fails; a document after all: it is merged)
+				var data []byte
+				var err error
+				ctl := map[string]any{}
+				ext := "yaml"
+				if s.Via == "broken-yaml" {
+					data, _ = yaml.Marshal(plain)
+					data = append(append([]byte{}, data[:len(data)/2]...), "\n\t- [: }\n"...)
+					err = yaml.NewDecoder(bytes.NewReader(data)).Decode(&ctl)
+				} else {
+					ext = "json"
+					data, _ = json.Marshal(plain)
+					data = append(append([]byte{}, data[:len(data)/2]...), "]}{"...)
+					err = json.NewDecoder(bytes.NewReader(data)).Decode(&ctl)
+				}
+				files[i] = filepath.Join(dir, fmt.Sprintf("broken%d.%s", i, ext))
+				if werr := os.WriteFile(files[i], data, 0o644); werr != nil {
+					panic(werr)
+				}
+				if err != nil {
+					mustFail[i] = true
+					c.Dist("config:broken-file-fails")
+				} else {
+					docs = append(docs, plainWire(ctl))
+				}
+				continue
+			}
 			switch s.Via {
 			case "yaml", "json":
 				var data []byte
@@ -537,6 +581,9 @@ func c04Eval(c *Ctx, kind string, raw []byte) {
 			h := fluent.NewConfigHelper[map[string]any]().Add(wirePlain(p.Defaults).(map[string]any))
 			for i, s := range p.Sources {
 				switch s.Via {
+				case "broken-yaml", "broken-json":
+					o, t := guard(func() { h = h.Load(files[i]) })
+					c.Direct("config-load-fails-iff-control-decoder-fails", (o != "ok") == mustFail[i], map[string]any{"source": i, "outcome": o, "text": t})
 				case "yaml", "json":
 					h = h.Load(files[i])
 				case "map":
@@ -546,6 +593,10 @@ func c04Eval(c *Ctx, kind string, raw []byte) {
 				}
 			}
 			got = plainWire(*h.Result())
+			// repeated use: a second Result is what the first was, whatever was done with the first
+			first := h.Result()
+			c01Scribble(*first)
+			c.Direct("config-result-twice-equal", canon(plainWire(*h.Result())) == canon(got), map[string]any{"first": got, "second": plainWire(*h.Result())})
 			// the same law with Merge itself: defaults, then each source merged over the accumulated document
 			acc := dom.Builder().Container()
 			for _, d := range docs {
